@@ -5,6 +5,7 @@ mod common;
 mod ecrash;
 mod ehist;
 mod enet;
+mod ewire;
 mod httprig;
 mod netrun;
 mod refdns;
@@ -72,6 +73,8 @@ fn main() {
             "C05" => netrun::worker(prop, t, shard, n, checks::c05::cases, checks::c05::run_case),
             "C08" => netrun::worker(prop, t, shard, n, checks::c08::cases, checks::c08::run_case),
             "C04" => netrun::worker(prop, t, shard, n, checks::c04::cases, checks::c04::run_case),
+            "C17" => netrun::worker(prop, t, shard, n, checks::c17::wire_cases, checks::c17::wire_run_case),
+            "C12" => netrun::worker(prop, t, shard, n, checks::c12::wire_cases, checks::c12::wire_run_case),
             _ => std::process::exit(2),
         }
     }
